@@ -651,7 +651,9 @@ fn process_request_obj(request: &Request, dbs: &Arc<Databases>, client: &mut Cli
                     client,
                     &db_name,
                     &|db| {
-                        if dbs.is_primary() {
+                        // A resolution the primary replicates is applied here: sending it back would make
+                        // the primary apply and replicate it again, for ever
+                        if dbs.is_primary() || client.is_primary() {
                             db.resolve_conflit(
                                 Change {
                                     key: key.clone(),
@@ -685,7 +687,9 @@ fn process_request_obj(request: &Request, dbs: &Arc<Databases>, client: &mut Cli
                     &client,
                     &key,
                     &|db| {
-                        if dbs.is_primary() {
+                        // A resolution the primary replicates is applied here: sending it back would make
+                        // the primary apply and replicate it again, for ever
+                        if dbs.is_primary() || client.is_primary() {
                             db.resolve_conflit(
                                 Change {
                                     key: key.clone(),
